@@ -1,5 +1,8 @@
 use crate::ast::{BinaryOp, Commented, Expr, RecordEntry, RecordKey, SpannedExpr};
-use crate::ast_to_source::{expr_to_source, format_record_key, needs_parens_in_binop};
+use crate::ast_to_source::{
+    expr_to_source, format_record_key, is_open_ended, lambda_body_needs_parens,
+    needs_parens_in_binop, needs_parens_in_postfix,
+};
 use crate::values::LambdaArg;
 
 const DEFAULT_MAX_COLUMNS: usize = 80;
@@ -57,12 +60,18 @@ fn format_single_line(expr: &SpannedExpr) -> String {
             } else {
                 format!("({})", args_str.join(", "))
             };
-            format!("{} => {}", args_part, format_single_line(body))
+            let body_str = if lambda_body_needs_parens(body) {
+                format!("({})", format_single_line(body))
+            } else {
+                format_single_line(body)
+            };
+            format!("{} => {}", args_part, body_str)
         }
         Expr::Call { func, args } => {
-            let func_str = match &func.node {
-                Expr::Lambda { .. } => format!("({})", format_single_line(func)),
-                _ => format_single_line(func),
+            let func_str = if needs_parens_in_postfix(func) {
+                format!("({})", format_single_line(func))
+            } else {
+                format_single_line(func)
             };
             let args_str: Vec<String> = args.iter().map(format_single_line).collect();
             format!("{}({})", func_str, args_str.join(", "))
@@ -284,8 +293,17 @@ fn format_lambda(args: &[LambdaArg], body: &SpannedExpr, max_cols: usize, indent
         return format!("{} {}", args_part, body_formatted);
     }
 
+    // A body with an unparenthesised via / into / where would end before that operator
+    let wrap = |formatted: String| {
+        if lambda_body_needs_parens(body) {
+            format!("({})", formatted)
+        } else {
+            formatted
+        }
+    };
+
     // Try single-line first for other body types
-    let single_line_body = format_expr_impl(body, max_cols, indent);
+    let single_line_body = wrap(format_expr_impl(body, max_cols, indent));
     let single_line = format!("{} {}", args_part, single_line_body);
 
     // Check only if it's actually single-line and fits
@@ -299,7 +317,7 @@ fn format_lambda(args: &[LambdaArg], body: &SpannedExpr, max_cols: usize, indent
         "{}\n{}{}",
         args_part,
         make_indent(body_indent),
-        format_expr_impl(body, max_cols, body_indent)
+        wrap(format_expr_impl(body, max_cols, body_indent))
     )
 }
 
@@ -311,7 +329,16 @@ fn format_conditional_multiline(
     max_cols: usize,
     indent: usize,
 ) -> String {
-    let cond_str = format_expr_impl(condition, max_cols, indent);
+    // A lambda, conditional or assignment in the condition or the then-branch is kept in
+    // parentheses so that it cannot run into the keyword that follows it.
+    let wrap_open = |expr: &SpannedExpr, formatted: String| {
+        if is_open_ended(expr) {
+            format!("({})", formatted)
+        } else {
+            formatted
+        }
+    };
+    let cond_str = wrap_open(condition, format_expr_impl(condition, max_cols, indent));
 
     // Try to fit "if <condition> then" on one line
     let if_then_prefix = format!("if {} then", cond_str);
@@ -334,7 +361,7 @@ fn format_conditional_multiline(
                 "{}\n{}{}\n{}else {}",
                 if_then_prefix,
                 make_indent(inner_indent),
-                format_expr_impl(then_expr, max_cols, inner_indent),
+                wrap_open(then_expr, format_expr_impl(then_expr, max_cols, inner_indent)),
                 make_indent(indent),
                 else_if_part
             )
@@ -343,7 +370,7 @@ fn format_conditional_multiline(
                 "{}\n{}{}\n{}else\n{}{}",
                 if_then_prefix,
                 make_indent(inner_indent),
-                format_expr_impl(then_expr, max_cols, inner_indent),
+                wrap_open(then_expr, format_expr_impl(then_expr, max_cols, inner_indent)),
                 make_indent(indent),
                 make_indent(inner_indent),
                 format_expr_impl(else_expr, max_cols, inner_indent)
@@ -363,10 +390,10 @@ fn format_conditional_multiline(
             format!(
                 "if\n{}{}\n{}then\n{}{}\n{}else {}",
                 make_indent(inner_indent),
-                format_expr_impl(condition, max_cols, inner_indent),
+                wrap_open(condition, format_expr_impl(condition, max_cols, inner_indent)),
                 make_indent(indent),
                 make_indent(inner_indent),
-                format_expr_impl(then_expr, max_cols, inner_indent),
+                wrap_open(then_expr, format_expr_impl(then_expr, max_cols, inner_indent)),
                 make_indent(indent),
                 else_if_part
             )
@@ -374,10 +401,10 @@ fn format_conditional_multiline(
             format!(
                 "if\n{}{}\n{}then\n{}{}\n{}else\n{}{}",
                 make_indent(inner_indent),
-                format_expr_impl(condition, max_cols, inner_indent),
+                wrap_open(condition, format_expr_impl(condition, max_cols, inner_indent)),
                 make_indent(indent),
                 make_indent(inner_indent),
-                format_expr_impl(then_expr, max_cols, inner_indent),
+                wrap_open(then_expr, format_expr_impl(then_expr, max_cols, inner_indent)),
                 make_indent(indent),
                 make_indent(inner_indent),
                 format_expr_impl(else_expr, max_cols, inner_indent)
@@ -393,9 +420,10 @@ fn format_call_multiline(
     max_cols: usize,
     indent: usize,
 ) -> String {
-    let func_str = match &func.node {
-        Expr::Lambda { .. } => format!("({})", format_expr_impl(func, max_cols, indent)),
-        _ => format_expr_impl(func, max_cols, indent),
+    let func_str = if needs_parens_in_postfix(func) {
+        format!("({})", format_expr_impl(func, max_cols, indent))
+    } else {
+        format_expr_impl(func, max_cols, indent)
     };
 
     if args.is_empty() {
